@@ -8,6 +8,9 @@ let runs : (string * (n list -> n list)) list = [
   "USE", run_USE;
   "CAD", run_CAD;
   "CAE", run_CAE;
+  "FRG", run_FRG;
+  "REA", run_REA;
+  "BLD", run_BLD;
 ]
 let twos : (string * (n list -> n list -> n list)) list = [
   "view_C03", view_C03;
@@ -20,6 +23,12 @@ let twos : (string * (n list -> n list -> n list)) list = [
   "ok_C11_EV", ok_C11_EV;
   "view_C12", view_C12;
   "ok_C12", ok_C12;
+  "view_C10", view_C10;
+  "ok_C10", ok_C10;
+  "view_C02", view_C02;
+  "ok_C02", ok_C02;
+  "view_C07", view_C07;
+  "ok_C07", ok_C07;
   "view_C04_USD", view_C04_USD;
   "ok_C04_USD", ok_C04_USD;
   "view_C04_CAD", view_C04_CAD;
